@@ -79,13 +79,9 @@ def unit_shift(rel, q, which, twin=False):
             r.add(tag + ".visits_exactly_the_column_cells", UNDECIDED, "symex", 0, "loop condition or initialisation not read")
         else:
             cnd = conds[0]
-            st0 = SX.State()
-            for did, (nm_, q_) in ex.assigned_locals(node)[0].items():
-                pass
-            exi = SX.Exec(ctx); exi.local_ids = ex.local_ids; exi.addr_taken = getattr(ex, "addr_taken", set()); exi.loop_ids = ex.loop_ids
             v0 = None
             try:
-                for s0 in exi.exec(init, [st0]):
+                for s0 in ex.exec(init, [info["entry_state"].clone()]):
                     v0 = U.local_of(info, s0, "i")
             except Exception:
                 v0 = None
